@@ -245,7 +245,7 @@ func init() {
 
 	core.Register(&core.Rule{
 		Name: "R-EPOCH",
-		Doc: "The visited epoch of a generation-stamped table (an integer field E compared with and stored into elements of a slice field V by a gate function): (a) every increment of E is followed, before any call, by a test of E against 0 whose taken branch clears V (wrap handling: the 2^k-th search must not see stale marks; necessary for C13), and the table is not extended by re-slicing itself after the increment (the clear must cover the final extent); (b) no increment of E, and no call of a function that increments E, sits in a loop that also calls the gated recursion (a reset per start position turns the states x n visited bound into states x n^2; necessary for C05).",
+		Doc: "The visited epoch of a generation-stamped table (an integer field E compared with and stored into elements of a slice field V by a gate function): (a) every increment of E is followed, before any call, by a test of E against 0 whose taken branch clears V (wrap handling: the 2^k-th search must not see stale marks; necessary for C13), the table is not extended by re-slicing itself after the increment (the clear must cover the final extent), and if the table is ever re-sliced below its capacity the clear covers V[:cap(V)]; (b) no increment of E, and no call of a function that increments E, sits in a loop that also calls the gated recursion (a reset per start position turns the states x n visited bound into states x n^2; necessary for C05).",
 		Min: 2, NeedSSA: true,
 		Run: func(p *core.Prog) *core.RuleResult {
 			res := &core.RuleResult{}
@@ -423,6 +423,67 @@ func init() {
 							}
 						}
 						res.Obligations = append(res.Obligations, oc)
+						// (a'') the wrap-clear covers the whole backing array when the table can be shorter than its capacity
+						// (some function stores a re-slice V[:n] of the table back into the field): the zero stores of the
+						// clear must go through a view V[:cap(V)]
+						resliced := false
+						for _, g := range p.SrcFuncs() {
+							for _, gb := range g.Blocks {
+								for _, gin := range gb.Instrs {
+									st2, ok := gin.(*ssa.Store)
+									if !ok {
+										continue
+									}
+									_, owner2, f2, elem2 := baseField(st2.Addr)
+									if f2 != tf || elem2 || owner2 != owner {
+										continue
+									}
+									if sl, ok := st2.Val.(*ssa.Slice); ok && sl.High != nil && derivesFromLoadOf(sl.X, owner, tf, 0) {
+										resliced = true
+									}
+								}
+							}
+						}
+						if resliced {
+							od := core.Obligation{Key: kc.Key("R-EPOCH", core.FuncName(f), "increment "+fq+" wrap-clear covers the capacity"), Pos: p.Pos(st.Pos()), Nontrivial: true}
+							full, partial := false, ""
+							for _, b2 := range f.Blocks {
+								for _, in2 := range b2.Instrs {
+									st2, ok := in2.(*ssa.Store)
+									if !ok || !isZeroConst(st2.Val) {
+										continue
+									}
+									ia, ok := st2.Addr.(*ssa.IndexAddr)
+									if !ok {
+										continue
+									}
+									base := ia.X
+									if sl, ok := base.(*ssa.Slice); ok && derivesFromLoadOf(sl.X, owner, tf, 0) {
+										if c, ok := sl.High.(*ssa.Call); ok {
+											if bi, ok := c.Call.Value.(*ssa.Builtin); ok && bi.Name() == "cap" && derivesFromLoadOf(c.Call.Args[0], owner, tf, 0) {
+												full = true
+												continue
+											}
+										}
+										partial = p.Pos(st2.Pos())
+									} else if derivesFromLoadOf(base, owner, tf, 0) {
+										partial = p.Pos(st2.Pos())
+									}
+								}
+							}
+							switch {
+							case full && partial == "":
+								od.Status = core.Discharged
+								od.Detail = "the clear runs over " + tf.Name() + "[:cap(" + tf.Name() + ")]"
+							case partial != "":
+								od.Status = core.Violated
+								od.Detail = fmt.Sprintf("the table is re-sliced below its capacity elsewhere, but the wrap-clear at %s only covers the current length: rows beyond it keep the stamps of the previous cycle and look visited when the same epoch value comes round on a longer input", partial)
+							default:
+								od.Status = core.Discharged
+								od.Detail = "no element-wise clear of the table in this function (checked by the wrap-check obligation)"
+							}
+							res.Obligations = append(res.Obligations, od)
+						}
 						// (b) not in a loop with the gated recursion
 						ob := core.Obligation{Key: kc.Key("R-EPOCH", core.FuncName(f), "increment "+fq+" not-per-start-position"), Pos: p.Pos(st.Pos()), Nontrivial: true}
 						ob.Status = core.Discharged
